@@ -282,7 +282,7 @@ def render_scripts(events, results, tag):
     return files, programs
 
 
-def run_scripts(events, results, tag, via="script"):
+def run_scripts(events, results, tag, via="script", only=None, raw=False):
     """Compile the rendered programs in order with the real entry point; returns a list aligned with
     the compile events: {"mir": canon} | {"err": class name}, or None if not renderable."""
     from ..real.interp import canon_err
@@ -300,7 +300,10 @@ def run_scripts(events, results, tag, via="script"):
     sys.path.insert(0, d)
     outs = []
     try:
-        for fn, _ in programs:
+        for pi, (fn, _) in enumerate(programs):
+            if only is not None and pi not in only:
+                outs.append({"skipped": True})
+                continue
             path = os.path.join(d, fn)
             try:
                 with contextlib.redirect_stdout(io.StringIO()):
@@ -309,7 +312,8 @@ def run_scripts(events, results, tag, via="script"):
                     else:
                         with open(path, encoding="utf-8") as f:
                             res = compile_string(base64.b64encode(f.read().encode()).decode())
-                outs.append({"mir": cm.canon_mir(json.loads(res.mir))})
+                full = json.loads(res.mir)
+                outs.append({"mir": cm.canon_mir(full), **({"raw": full} if raw else {})})
             except Exception as exc:  # pylint: disable=broad-except
                 outs.append({"err": canon_err(exc), "msg": f"{type(exc).__name__}: {exc}"[:200]})
     finally:
@@ -322,3 +326,62 @@ def run_scripts(events, results, tag, via="script"):
         shutil.rmtree(d, ignore_errors=True)
         reset_globals()
     return outs, files
+
+
+def line_map(files):
+    """register -> (file name, line number) of the statement `r<n> = <expression>` that creates its value"""
+    import re
+    out = {}
+    for fn, text in files:
+        for i, l in enumerate(text.split("\n"), 1):
+            m = re.match(r"\s*r(\d+) = (.*)$", l)
+            if m and not re.fullmatch(r"[A-Za-z_][A-Za-z_0-9]*", m.group(2).strip()):
+                out.setdefault(int(m.group(1)), (fn, i))
+    return out
+
+
+def expected_lines(events, facts, files, programs):
+    """what the program text says about where each MIR element was created:
+    ({operation id: (file, line)}, {program file: {("party"|"input"|"output", name): (file, line)}})"""
+    lm = line_map(files)
+    child = facts["child_ids"]
+    op_lines = {}
+    reg = 0
+    input_reg_of = {}         # wrapper register -> register of the Input(...) statement behind it
+    parties, inputs = {}, {}
+    for ev in events:
+        c = ev.get("c")
+        if c is None:
+            continue
+        op = c["op"]
+        if op == "wrap":
+            input_reg_of[reg] = c["r"]
+        elif op == "arrayOf" and c["r"] in input_reg_of:
+            input_reg_of[reg] = input_reg_of[c["r"]]
+        if op == "party":
+            parties.setdefault(c["name"], []).append(reg)
+        if op == "inputObj":
+            inputs.setdefault(c["name"], []).append(reg)
+        k = child.get(reg, child.get(str(reg)))
+        if k is not None and k not in op_lines:
+            src = input_reg_of.get(reg, reg)
+            if src in lm:
+                op_lines[k] = lm[src]
+        reg += len(c["params"]) if op == "beginFn" else 1
+    named = {}
+    for name, regs in parties.items():
+        if len(regs) == 1 and regs[0] in lm:
+            named[("party", name)] = lm[regs[0]]
+    for name, regs in inputs.items():
+        if len(regs) == 1 and regs[0] in lm:
+            named[("input", name)] = lm[regs[0]]
+    per_prog = {}
+    texts = dict(files)
+    for fn, spec in programs:
+        d = dict(named)
+        ret = next((i for i, l in enumerate(texts[fn].split("\n"), 1) if l.strip().startswith("return [")), None)
+        if ret is not None:
+            for _, oname, _ in spec:
+                d[("output", oname)] = (fn, ret)
+        per_prog[fn] = d
+    return op_lines, per_prog
